@@ -574,10 +574,65 @@ impl Analyzer
 				{
 					unreachable!()
 				}
-				ValueType::Pointer { .. } => Ok(value_type),
-				ValueType::View { .. } => Ok(value_type),
+				ValueType::Pointer { .. } | ValueType::View { .. } =>
+				{
+					// What a pointer points to is not contained, but a named
+					// array length behind it is a constant that must be
+					// evaluated before this container is.
+					self.found_named_lengths(
+						name_of_container,
+						name_of_member,
+						&value_type,
+					)?;
+					Ok(value_type)
+				}
 			},
 			Err(poison) => Err(poison),
+		}
+	}
+
+	fn found_named_lengths(
+		&mut self,
+		name_of_container: &Identifier,
+		name_of_member: Option<&Identifier>,
+		value_type: &ValueType,
+	) -> Poisonable<()>
+	{
+		match value_type
+		{
+			ValueType::ArrayWithNamedLength {
+				element_type,
+				named_length,
+			} =>
+			{
+				let _resolved: Identifier = self.found_container_1(
+					name_of_container,
+					name_of_member,
+					named_length.clone(),
+				)?;
+				self.found_named_lengths(
+					name_of_container,
+					name_of_member,
+					element_type,
+				)
+			}
+			ValueType::Array { element_type, .. }
+			| ValueType::Slice { element_type }
+			| ValueType::SlicePointer { element_type }
+			| ValueType::EndlessArray { element_type }
+			| ValueType::Arraylike { element_type } => self
+				.found_named_lengths(
+					name_of_container,
+					name_of_member,
+					element_type,
+				),
+			ValueType::Pointer { deref_type }
+			| ValueType::View { deref_type } => self.found_named_lengths(
+				name_of_container,
+				name_of_member,
+				deref_type,
+			),
+			_ => Ok(()),
 		}
 	}
 
